@@ -65,6 +65,51 @@ GEN_BODY = "INIT Init\nNEXT Next\nCONSTRAINT Emit\nCHECK_DEADLOCK FALSE\n"
 LIVE_BODY = "SPECIFICATION LiveSpec\nPROPERTY Answered\nPROPERTY Drain\nCHECK_DEADLOCK FALSE\n"
 
 
+def model_conformance(wd, behaviours, traces, cov, res):
+    """Sched.tla's own actions applied to the labels of every behaviour the gated replay followed to the end; the model's
+    verdict per request and its runner count are compared with the recorded facts (Trace_SchedModel.tla, drift only)."""
+    beh = {str(b["t"]): b for b in behaviours}
+    by_cfg = {}
+    for _, tr in traces:
+        h = tr[0]
+        b = beh.get(str(h.get("t")))
+        end = [r for r in tr if r["ev"] == "end"]
+        if b is None or h.get("noise") or int(h.get("t", 0)) >= 900000 or not end or end[0].get("diverged", 1) != 0:
+            continue
+        line = dict(t=b["t"], hist=b["hist"], grants=[[r["q"], r["r"]] for r in tr if r["ev"] == "grant"],
+                    refused=[r["q"] for r in tr if r["ev"] == "refuse"], starts=sum(1 for r in tr if r["ev"] == "start"))
+        by_cfg.setdefault(h["cfg"], []).append(line)
+    cov["model_conformance"] = []
+    drift = {}
+    for c in CONFIGS:
+        lines = by_cfg.get(c["name"], [])
+        if not lines:
+            continue
+        mc = mc_module(wd, c)
+        root = "TSM_" + c["name"].replace("-", "_")
+        txt = open(os.path.join(wd, mc + ".tla")).read().replace(f"MODULE {mc}", f"MODULE {root}").replace("EXTENDS Sched", "EXTENDS Trace_SchedModel")
+        with open(os.path.join(wd, root + ".tla"), "w") as f:
+            f.write(txt)
+        path = os.path.join(wd, f"behaviours_{root}.ndjson")
+        with open(path, "w") as f:
+            for ln in lines:
+                f.write(json.dumps(ln) + "\n")
+        cfg = vf.write_cfg(wd, f"{root}.cfg", consts(c, runner_ids=4), "INIT TInit\nNEXT Step\nPOSTCONDITION Accepted\nCHECK_DEADLOCK FALSE\n")
+        expect = sum(len(ln["hist"]) + 1 for ln in lines)
+        try:
+            v = vf.validate_trace(root, cfg, path, wd, timeout=1800, env={"VF_EXPECT_NUM": str(expect)})
+        except vf.Inconclusive as ex:
+            res.note(f"model conformance ({c['name']}) did not complete: {str(ex)[:200]}")
+            continue
+        for _, _, fl in v["drift"]:
+            for x in fl:
+                drift[x] = drift.get(x, 0) + 1
+        cov["model_conformance"].append(dict(config=c["name"], behaviours=len(lines), steps=expect, drift_lines=len(v["drift"])))
+    cov["model_drift"] = drift
+    if drift:
+        res.note(f"model drift (real scheduler differs from Sched.tla on fully followed behaviours): {drift}")
+
+
 def confirmed(wd, b, flags, tag):
     """re-run one behaviour on its own, six times (one harness process); True if one of the runs shows one of the flags again.
     (Steps that depend on real time -- the 10 ms expiry re-queue -- make some defects show in a fraction of the runs only.)"""
@@ -176,6 +221,8 @@ def run(prop, tier="quick", seed=1, replay=None):
                                               go_timeout=3000, tlc_timeout=3000)
         traces = vf.split_traces(recs)
         beh = {str(b["t"]): b for b in behaviours}
+        if not replay:
+            model_conformance(wd, behaviours, traces, cov, res)
         cov["traces_validated_against_impl"] = len(traces)
         cov["evaluations"] = len(recs)
         nt = set()
